@@ -30,8 +30,8 @@ def dominates(expr: ast.AST, need: Poly, atoms: List[str]) -> Optional[bool]:
         res = [dominates(a, need, atoms) for a in expr.args]
         if any(r is True for r in res):
             return True
-        if all(r is False for r in res):
-            return False
+        if any(r is False for r in res):
+            return False        # no argument is guaranteed to reach the need; one provably does not
         return None
     if isinstance(expr, ast.Call) and dotted(expr.func) == "min" and expr.args and not expr.keywords:
         res = [dominates(a, need, atoms) for a in expr.args]
